@@ -389,6 +389,15 @@ class Interp:
             out = NULL
             for c, vals in reversed(rows):
                 out = v_ite(c, vals[0][1], out)
+            # MySQL error 1242: a scalar subquery that yields more than one row fails the statement
+            multi = False
+            for a in range(len(rows)):
+                for b in range(a + 1, len(rows)):
+                    multi = b_or(multi, b_and(rows[a][0], rows[b][0]))
+            if multi is not False:
+                g = b_and(getattr(fr, 'cur_guard', True), multi)
+                db.add_err('subquery-returns-more-than-one-row', g)
+                fr.alive = b_and(fr.alive, b_not(g))
             return out
         if k == 'call':
             return self.call(e, fr, sc, group)
@@ -516,6 +525,7 @@ class Interp:
             vals = [self.ev(a, fr, sc, group) for a in args]
             f2 = Frame(db, {p[1]: v for p, v in zip(r['params'], vals)})
             f2.sqlparams = fr.sqlparams
+            f2.cur_guard = getattr(fr, 'cur_guard', True)
             body = r['body']
             if len(body) != 1 or body[0][0] != 'return':
                 raise HarnessError(f'function {lname}: only a single RETURN is supported')
@@ -729,6 +739,7 @@ class Interp:
     def stmt(self, st, fr, guard):
         if guard is False:
             return
+        fr.cur_guard = guard
         k = st[0]
         db = self.db
         if k == 'declare':
